@@ -738,7 +738,7 @@ def module_constants(fi: FunctionInfo) -> Dict[str, ast.AST]:
     return {k: v for k, v in cache.items() if k not in local}
 
 
-def paths(fi: FunctionInfo, bindings: Optional[Dict[str, object]] = None, repo=None, _depth: int = 0) -> List[Path]:
+def paths(fi: FunctionInfo, bindings: Optional[Dict[str, object]] = None, repo=None, _depth: int = 0, through=()) -> List[Path]:
     """every path through a small function with its facts, returned value and
     stores (engine.patheval); bindings: parameter -> python constant or ast;
     repo given: calls of single-path repository helpers are replaced by what
@@ -747,7 +747,7 @@ def paths(fi: FunctionInfo, bindings: Optional[Dict[str, object]] = None, repo=N
     for k, v in (bindings or {}).items():
         b[k] = v if isinstance(v, ast.AST) else ast.Constant(v)
     post = complement_norm if repo is None else (lambda x: complement_norm(inline_helpers(repo, fi, x)))
-    pe = PathEval(fi.node, b, post=post, call_hook=_helper_hook(repo or _current_repo(), fi, _depth))
+    pe = PathEval(fi.node, b, post=post, call_hook=_helper_hook(repo or _current_repo(), fi, _depth, through))
     out = pe.run()
     if pe.truncated:
         raise AnalysisError(f"too many paths through {fi.qualname}")
@@ -762,13 +762,14 @@ def _current_repo():
     return CURRENT_REPO[0]
 
 
-def _helper_hook(repo, fi: FunctionInfo, depth: int):
+def _helper_hook(repo, fi: FunctionInfo, depth: int, through=()):
     """paths of private helpers that are NOT in the frozen list of known
     functions (engine/known_functions.txt) and that E-INL could not expand in
     place (e.g. a `return` inside a loop over a literal tuple)"""
     known = getattr(repo, "known_functions", None) if repo is not None else None
-    if repo is None or known is None or depth >= 3:
+    if repo is None or (known is None and not through) or depth >= 3:
         return None
+    known = known or set()
 
     def hook(call: ast.Call):
         probe = call
@@ -776,10 +777,13 @@ def _helper_hook(repo, fi: FunctionInfo, depth: int):
         if isinstance(f, ast.Name) and f.id.endswith("__def"):
             probe = ast.Call(func=ast.Name(id=f.id[:-5], ctx=ast.Load()), args=call.args, keywords=call.keywords)
         callee = resolve_call(repo, fi, probe)
-        if callee is None or callee.qualname in known or callee.name == "__init__":
+        if callee is None or callee.name == "__init__":
             return None
-        if not (callee.name.startswith("_") or callee.parent is not None) or (callee.name.startswith("__") and callee.name.endswith("__")):
-            return None
+        if callee.name not in through:
+            if callee.qualname in known:
+                return None
+            if not (callee.name.startswith("_") or callee.parent is not None) or (callee.name.startswith("__") and callee.name.endswith("__")):
+                return None
         if any(isinstance(a, ast.Starred) for a in call.args) or any(k.arg is None for k in call.keywords):
             return None
         params = list(callee.named_params)
@@ -795,7 +799,7 @@ def _helper_hook(repo, fi: FunctionInfo, depth: int):
         for x, dv in list(zip(pos[len(pos) - len(a.defaults):], a.defaults)) + [(x, dv) for x, dv in zip(a.kwonlyargs, a.kw_defaults) if dv is not None]:
             b.setdefault(x.arg, dv)
         try:
-            return paths(callee, b, None, _depth=depth + 1)
+            return paths(callee, b, None, _depth=depth + 1, through=through)
         except AnalysisError:
             return None
 
